@@ -186,6 +186,11 @@ def gen_spec(rng):
 
 
 def generate(rng, tier):
+    if rng.random() < 0.01:
+        # a converter registered for the built-in set types that refuses what is not a set already: inside Set[int] its
+        # word stands as it does for a plain set field (declared before or after the registration)
+        return {"prop": ID, "kind": "set_refusal", "flavour": "global_transformer", "declare_first": rng.random() < 0.5,
+                "frozen": rng.random() < 0.5, "inputs": [rng.choice([[1, 2], ["1"], {"$set": [1, "2"]}, [], [[1]], (1,)]) for _ in range(rng.choice([1, 2, 3]))]}
     flavour = rng.choice(["private", "private_base", "global_transformer", "global_transformer", "global_encoder"])
     n = rng.choice([4, 5, 6, 8, 10, 14])
     ops = []
@@ -494,7 +499,54 @@ def classify(w, op, exp, got, history_expect):
 
 # ----------------------------------------------------------------------------- execution
 
+def execute_set_refusal(plan):
+    import typing
+    import utype
+    from utype.utils.exceptions import ParseError
+    res = RunResult()
+    kernel.reset_world()
+    kernel.make_module("verif_c16")
+    origin = frozenset if plan["frozen"] else set
+    G = typing.FrozenSet[int] if plan["frozen"] else typing.Set[int]
+
+    def declare():
+        return (type("Plain", (utype.Schema,), {"__annotations__": {"s": origin}, "__module__": "verif_c16", "__qualname__": "Plain"}),
+                type("Typed", (utype.Schema,), {"__annotations__": {"s": G}, "__module__": "verif_c16", "__qualname__": "Typed"}))
+
+    def only_sets(transformer, data, t):
+        if not isinstance(data, (set, frozenset)):
+            raise TypeError("only sets")
+        return t(data)
+    if plan["declare_first"]:
+        Plain, Typed = declare()
+    utype.register_transformer(set, frozenset)(only_sets)
+    if not plan["declare_first"]:
+        Plain, Typed = declare()
+
+    def verdict(cls, v):
+        try:
+            cls(s=v)
+            return "accepted"
+        except ParseError:
+            return "refused"
+        except Exception as e:  # noqa
+            return "raw:" + type(e).__name__
+    for n, vx in enumerate(plan["inputs"]):
+        v = set(vx["$set"]) if isinstance(vx, dict) else (tuple(vx) if isinstance(vx, tuple) else vx)
+        want = "accepted" if isinstance(v, (set, frozenset)) else "refused"
+        got = [verdict(Plain, copy.deepcopy(v)), verdict(Typed, copy.deepcopy(v))]
+        res.ev(n, "set_refusal", got)
+        if got[0] != want or got[1] != want:
+            res.violate(f"C16|global_transformer|set_refusal|{'declared_first' if plan['declare_first'] else 'registered_first'}|{got[0]}_{got[1]}",
+                        f"a converter registered for set / frozenset accepts sets only; given {v!r}: plain {origin.__name__} field {got[0]}, {G} field {got[1]}, the registration requires {want} for both")
+            break
+    res.nontrivial = kernel.digest_of(["set_refusal", plan["declare_first"], plan["frozen"], plan["inputs"]])
+    return res
+
+
 def execute(plan):
+    if plan.get("kind") == "set_refusal":
+        return execute_set_refusal(plan)
     if plan.get("threads"):
         return execute_threaded(plan)
     res = RunResult()
@@ -678,6 +730,13 @@ def execute_threaded(plan):
 # ----------------------------------------------------------------------------- shrinking
 
 def shrink(plan):
+    if plan.get("kind") == "set_refusal":
+        for i in range(len(plan["inputs"])):
+            if len(plan["inputs"]) > 1:
+                p = copy.deepcopy(plan)
+                p["inputs"].pop(i)
+                yield p
+        return
     if plan.get("threads"):
         if plan["schedule"]["kind"] != "segments":
             try:
